@@ -585,7 +585,7 @@ def execute(trace: dict) -> Outcome:
         import copy
 
         t = copy.deepcopy(trace)
-        run = SingleRun(t, [BurstLimiter(t), fo, engine.FrozenMonitor()], ID)
+        run = SingleRun(t, [BurstLimiter(t), fo, engine.FrozenMonitor()], ID, sane_guard=False)
         run.fault_counts = Counter()
         # drop faults that name blocks/factors that do not exist in the real layout (after minimisation)
         for ev in t["events"]:
